@@ -366,6 +366,32 @@ func (pm *pinModel) analyse(fn *ssa.Function) *pinResult {
 
 func init() {
 	reg("C14-R1", "pin pairing: in the heap, executor, materialization, catalog, samehada, recovery, hash-index and index-wrapper packages every FetchPage/NewPage (and derived wrapper) is released by UnpinPage/DecPinOfPage on every non-panicking path, or leaves the function through a declared transfer", func(w *World, r *Report) {
+		pinRule(w, r, nil, 22, 38)
+	})
+	reg("C14-R1/recovery", "pin pairing on the restart path (a pin leaked by recovery exhausts a small pool and restart fails): the functions of recovery/log_recovery, the catalog reload and the samehada start-up / index reconstruction functions", func(w *World, r *Report) {
+		pinRule(w, r, func(fn *ssa.Function) bool {
+			p := fn.Pkg.Pkg.Path()
+			if p == libMod+"/recovery/log_recovery" {
+				return true
+			}
+			k := funcKey(fn)
+			return k == "samehada.NewSamehadaDB" || k == "samehada.reconstructIndexDataOfATbl" || k == "samehada.ReconstructAllIndexData" || k == "samehada.ReconstructNotKeptIndexData" ||
+				k == "catalog.RecoveryCatalogFromCatalogPage" || k == "storage/access.NewTableHeap" || k == "storage/access.InitTableHeap"
+		}, 3, 12)
+	})
+	reg("C14-R1/join", "pin pairing in the join executors and their temporary pages (C11-R4)", func(w *World, r *Report) {
+		pinRule(w, r, func(fn *ssa.Function) bool {
+			p := fn.Pkg.Pkg.Path()
+			if p == libMod+"/materialization" {
+				return true
+			}
+			return p == libMod+"/execution/executors" && strings.Contains(funcKey(fn), "Join")
+		}, 2, 2)
+	})
+}
+
+func pinRule(w *World, r *Report, filter func(fn *ssa.Function) bool, floorFns, floorAcq int) {
+	{
 		pm := newPinModel(w)
 		inScope := func(fn *ssa.Function) bool {
 			if fn.Pkg == nil || w.IsTestFunc(fn) || fn.Parent() != nil || fn.Synthetic != "" {
@@ -435,7 +461,12 @@ func init() {
 		}
 		sort.Slice(keys, func(i, j int) bool { return funcKey(keys[i]) < funcKey(keys[j]) })
 		totalAcq := 0
+		nFns := 0
 		for _, fn := range keys {
+			if filter != nil && !filter(fn) {
+				continue
+			}
+			nFns++
 			res := results[fn]
 			k := funcKey(fn)
 			totalAcq += res.acquires
@@ -485,7 +516,7 @@ func init() {
 				r.Bad(k+":"+kd, "every pin is released exactly once on every path", strings.Join(uniq(byKind[kd]), "; "))
 			}
 		}
-		r.Floor("functions touching pins (in scope)", len(keys), 22)
-		r.Floor("pin acquire sites examined", totalAcq, 38)
-	})
+		r.Floor("functions touching pins (in scope)", nFns, floorFns)
+		r.Floor("pin acquire sites examined", totalAcq, floorAcq)
+	}
 }
